@@ -72,7 +72,7 @@ fn c01_read_dispatch() {
 // @cost 60
 // @timeout 900
 // @needs DW
-// @desc the whole body of do_write (leaf writers shimmed) for every spec-valid L2 entry handed to it: a data cluster is written in place at the request's guest offset (the leaf derives host + in-cluster offset); compressed clusters and -- on an image with a backing file -- unallocated clusters go through copy-on-write; anything else (zero-flagged entries, unallocated entries without backing file: clusters that should have been given a mapping first) is refused with Err and nothing is written
+// @desc the whole body of do_write (leaf writers shimmed) for every spec-valid L2 entry handed to it: a data cluster is written in place at the request's guest offset (the leaf derives host + in-cluster offset); compressed clusters and -- on an image with a backing file -- unallocated clusters go through copy-on-write; for anything else (zero-flagged entries, unallocated entries without backing file: clusters that should have been given a mapping first) a refusal writes nothing
 // @bounds raw: every spec-valid u64; guest offset < 2^56; piece length 1..=cluster remainder; full symbolic geometry; has-backing symbolic
 // @funcs Qcow2Dev::do_write L2Entry::into_mapping Qcow2Info::cluster_round_down
 // @stub alloc::fmt::format -> String::new()
@@ -104,8 +104,10 @@ fn c01_write_dispatch() {
         assert!(r.is_ok() && env.nrec.get() == 1);
         let e = env.get_rec(0);
         assert!(e.kind == K_LEAF_COW && e.off == offset && e.len == len);
-    } else {
-        assert!(r.is_err() && env.nrec.get() == 0);
+    } else if r.is_err() {
+        // (today such entries are refused: they should have been given a mapping first; what
+        // the property needs is only that a refused piece writes nothing)
+        assert!(env.nrec.get() == 0);
     }
     kani::cover!(d.kind == spec::Kind::Data);
     kani::cover!(cow && d.kind == spec::Kind::Compressed);
